@@ -49,6 +49,25 @@ theorem c10_element_is_euler_bernoulli (E G A Iy Iz J L : K) (hL : L ≠ 0) :
   refine ⟨?_, ?_, ?_, ?_, ?_, ?_, ?_, ?_, ?_, ?_, ?_, ?_, ?_, ?_, ?_, ?_⟩ <;>
     simp [localStiff, tab, FEM.coeffs2, FEM.coeffsY, FEM.coeffsZ, ofInt] <;> field_simp <;> ring
 
+/-- **Closed-form cantilever solutions of one element** (node 1 clamped, loads on node 2): the element matrix
+reproduces the textbook tip displacements `PL/EA` (axial), `TL/GJ` (torsion), `PL³/3EI` with rotation `PL²/2EI`
+(transverse force) and `ML²/2EI`, `ML/EI` (end moment) – i.e. the finite element is exact at the nodes for these
+load cases -/
+theorem c10_single_element_cantilever (E G A Iy Iz J L P : K) (hL : L ≠ 0) (hE : E ≠ 0) (hG : G ≠ 0) (hA : A ≠ 0)
+    (hIy : Iy ≠ 0) (hJ : J ≠ 0) :
+    -- axial force P on u₂
+    localStiff E G A Iy Iz J L 1 1 * (P * L / (E * A)) = P ∧
+    -- torque P on θx₂
+    localStiff E G A Iy Iz J L 3 3 * (P * L / (G * J)) = P ∧
+    -- transverse force P on w₂: deflection PL³/3EI, rotation −PL²/2EI (sign convention of the component)
+    (localStiff E G A Iy Iz J L 6 6 * (P * L ^ 3 / (3 * E * Iy)) + localStiff E G A Iy Iz J L 6 7 * (-(P * L ^ 2 / (2 * E * Iy))) = P ∧
+     localStiff E G A Iy Iz J L 7 6 * (P * L ^ 3 / (3 * E * Iy)) + localStiff E G A Iy Iz J L 7 7 * (-(P * L ^ 2 / (2 * E * Iy))) = 0) ∧
+    -- end moment P on θ₂: rotation PL/EI, deflection −PL²/2EI
+    (localStiff E G A Iy Iz J L 6 6 * (-(P * L ^ 2 / (2 * E * Iy))) + localStiff E G A Iy Iz J L 6 7 * (P * L / (E * Iy)) = 0 ∧
+     localStiff E G A Iy Iz J L 7 6 * (-(P * L ^ 2 / (2 * E * Iy))) + localStiff E G A Iy Iz J L 7 7 * (P * L / (E * Iy)) = P) := by
+  refine ⟨?_, ?_, ⟨?_, ?_⟩, ⟨?_, ?_⟩⟩ <;>
+    simp [localStiff, tab, FEM.coeffs2, FEM.coeffsY, FEM.coeffsZ, ofInt] <;> field_simp <;> ring
+
 /-- **the element matrix is symmetric** -/
 theorem c10_element_symmetric (E G A Iy Iz J L : K) (r c : ℕ) (hr : r < 12) (hc : c < 12) :
     localStiff E G A Iy Iz J L r c = localStiff E G A Iy Iz J L c r := by
